@@ -137,7 +137,12 @@ def _check_in_dir(ctx, case, ref, ref_prog):
         src = case.module_source(k)
         if case.placement[k] != "first" and m["imports"]:
             ctx.label("import-not-first")
-        c = adapter.compile_src(src)
+        c = adapter.compile_src(src, optimize=getattr(case, "opt", [False] * len(case.modules))[k])
+        if c.ok and getattr(case, "opt", [False] * len(case.modules))[k]:
+            ctx.label("module-compiled-optimised")
+        if "/" in m["name"]:
+            ctx.label("module-in-a-subdirectory")
+            os.makedirs(os.path.dirname(m["name"]), exist_ok=True)
         if not c.ok:
             ctx.fail("module-rejected|%s|%s" % (c.stage, (adapter.exc_sig(c.exc) if c.exc is not None else c.kind)),
                      "module %s of a program that compiles as one module is rejected when compiled separately: %s\n%s\n%s" % (
@@ -239,7 +244,7 @@ def _check_in_dir(ctx, case, ref, ref_prog):
     if c.ok and not case.modules[0]["imports"]:
         with open("dup.nslir", "wb") as fh:
             pickle.dump(c.ir, fh)
-        for order in (["m0", "dup"], ["dup", "m0"]):
+        for order in ([names[0], "dup"], ["dup", names[0]]):
             res, _ = link(order)
             ctx.label("duplicate-definition-checked")
             if res[0] == "linked":
@@ -284,9 +289,10 @@ def cli_worker_factory(R, n_cases):
             try:
                 failed = False
                 for i, m in enumerate(case.modules):
+                    os.makedirs(os.path.dirname(os.path.join(work, m["name"])), exist_ok=True)
                     with open(os.path.join(work, m["name"] + ".nsl"), "w") as fh:
                         fh.write(case.module_source(i))
-                    p = subprocess.run([sys.executable, os.path.join(adapter.REPO, "nslc.py"), "-o", m["name"] + ".nslir",
+                    p = subprocess.run([sys.executable, os.path.join(adapter.REPO, "nslc.py"), "-O", "1" if getattr(case, "opt", [False] * 9)[i] else "0", "-o", m["name"] + ".nslir",
                                         m["name"] + ".nsl"], cwd=work, env=env, capture_output=True, text=True, timeout=300)
                     if p.returncode != 0 or not os.path.exists(os.path.join(work, m["name"] + ".nslir")):
                         ctx.fail("cli|nslc-fails", "nslc.py fails on module %s (exit %d): %s\n%s" % (
